@@ -11,6 +11,9 @@ over all reachable states, so the other threads are suspended at arbitrary point
 operations (between the `xchg` and the `next` store of a wfstack push, between load and cmpxchg
 of a pop, with stores sitting in their buffers, …).
 
+The wfstack theorems hold for every synchronisation scheme of the model, including concurrent
+poppers under RCU (`Wfs.Cfg.scheme = .rcu`); those that use the invariant take `c.WF`.
+
 Blocking operations (`___cds_wfs_node_sync_next(blocking)`, hence `__cds_wfs_pop_blocking`,
 `cds_wfs_next_blocking`, and the mutex-taking wrappers) are *not* claimed.
 -/
@@ -26,13 +29,13 @@ theorem wfs_push_wait_free (c : Wfs.Cfg) {s : Wfs.State} (h : Wfs.Reach c s) (t 
 /-- … and no step of another thread (instruction or buffer flush) can undo the pusher's progress:
 other threads never touch its pc, its store buffer or its result -/
 theorem wfs_others_cannot_delay (c : Wfs.Cfg) {s s' : Wfs.State} {l : Wfs.Label}
-    (st : Wfs.step c s l = some s') (t : Nat) (ht : l.tid ≠ t) :
+    (st : Wfs.step c s l = some s') (t : Nat) (ht : l.tid ≠ some t) :
     s'.pc t = s.pc t ∧ s'.buf t = s.buf t ∧ s'.ret t = s.ret t :=
   let h := Wfs.step_frame c st t ht; ⟨h.1, h.2.1, h.2.2.1⟩
 
 /-- **pop_all is wait-free** (both stacks): one unconditional `xchg` -/
 theorem wfs_pop_all_one_rmw (c : Wfs.Cfg) {s : Wfs.State} (t : Nat) (hp : s.pc t = .idle)
-    (hr : Wfs.hasRight c s t) (hb : s.buf t = []) (hv : s.priv t = []) :
+    (hr : Wfs.hasRightAll c s t) (hb : s.buf t = []) (hv : s.priv t = []) :
     ∃ s', Wfs.step c s (.popAll t) = some s' ∧ s'.pc t = .idle ∧ s'.head = Wfs.END :=
   Wfs.popAll_one_step c t hp hr hb hv
 
@@ -88,34 +91,34 @@ theorem wfs_nonblocking_next_never_waits (c : Wfs.Cfg) {s : Wfs.State} (t : Nat)
 /-- **wouldblock_only_if_inflight**: the non-blocking pop gives up at `sync_next` only if a push
 of the top node is in flight (its pusher is between `xchg` and store, or the store is in its
 store buffer) -/
-theorem wfs_wouldblock_only_if_inflight (c : Wfs.Cfg) {s : Wfs.State} (h : Wfs.Reach c s) (t : Nat)
+theorem wfs_wouldblock_only_if_inflight (c : Wfs.Cfg) (wf : c.WF) {s : Wfs.State} (h : Wfs.Reach c s) (t : Nat)
     (h0 : Nat) (hp : s.pc t = .popSync false h0) (hrd : Wfs.rd s t h0 = 0) :
     ∃ u o, Wfs.PendC s u h0 o :=
-  (Wfs.pop_incomplete c h t false h0 hp hrd).1
+  (Wfs.pop_incomplete c wf h t false h0 hp hrd).1
 
-theorem wfs_next_wouldblock_only_if_inflight (c : Wfs.Cfg) {s : Wfs.State} (h : Wfs.Reach c s) (t : Nat)
+theorem wfs_next_wouldblock_only_if_inflight (c : Wfs.Cfg) (wf : c.WF) {s : Wfs.State} (h : Wfs.Reach c s) (t : Nat)
     (hp : s.pc t = .idle) (hcur : s.cur t ≠ Wfs.END) (hrd : Wfs.rd s t (s.cur t) = 0) :
     ∃ u b, Wfs.PendC s u (s.cur t) b :=
-  (Wfs.iter_incomplete c h t hp hcur hrd).1
+  (Wfs.iter_incomplete c wf h t hp hcur hrd).1
 
 /-- **never WOULDBLOCK when no other operation is in progress** -/
-theorem wfs_nonblocking_pop_quiet_succeeds (c : Wfs.Cfg) {s : Wfs.State} (h : Wfs.Reach c s) (t : Nat)
+theorem wfs_nonblocking_pop_quiet_succeeds (c : Wfs.Cfg) (wf : c.WF) {s : Wfs.State} (h : Wfs.Reach c s) (t : Nat)
     (hp : s.pc t = .popLd false) (hq : Wfs.Quiet s t) :
     ∃ k s', k ≤ 4 ∧ Wfs.solo c t k s = some s' ∧ s'.pc t = .idle ∧ s'.ret t ≠ .wouldblock :=
-  Wfs.nonblocking_pop_quiet_succeeds c h t hp hq
+  Wfs.nonblocking_pop_quiet_succeeds c wf h t hp hq
 
-theorem wfs_nonblocking_next_quiet_succeeds (c : Wfs.Cfg) {s : Wfs.State} (h : Wfs.Reach c s) (t : Nat)
+theorem wfs_nonblocking_next_quiet_succeeds (c : Wfs.Cfg) (wf : c.WF) {s : Wfs.State} (h : Wfs.Reach c s) (t : Nat)
     (hp : s.pc t = .idle) (hc : s.cur t ≠ Wfs.END) (hq : Wfs.Quiet s t) :
     ∃ s', Wfs.step c s (.iterNext t false) = some s' ∧ s'.ret t ≠ .wouldblock ∧ s'.cur t ≠ s.cur t :=
-  Wfs.nonblocking_next_quiet_succeeds c h t hp hc hq
+  Wfs.nonblocking_next_quiet_succeeds c wf h t hp hc hq
 
 /-- `nonblocking_result_correct`: whatever a non-blocking pop returns is what C11 says
 (`wfs_LAST_state_correct`, `wfs_pop_null_iff_empty`); a WOULDBLOCK leaves the stack untouched -/
-theorem wfs_wouldblock_changes_nothing (c : Wfs.Cfg) {s : Wfs.State} (h : Wfs.Reach c s) (t : Nat)
+theorem wfs_wouldblock_changes_nothing (c : Wfs.Cfg) (wf : c.WF) {s : Wfs.State} (h : Wfs.Reach c s) (t : Nat)
     (h0 : Nat) (hp : s.pc t = .popSync false h0) (hrd : Wfs.rd s t h0 = 0) :
     ∃ s', Wfs.step c s (.popSync t) = some s' ∧ s'.ret t = .wouldblock ∧ s'.pc t = .idle ∧
       s'.abs = s.abs ∧ s'.head = s.head :=
-  (Wfs.pop_incomplete c h t false h0 hp hrd).2.2 rfl
+  (Wfs.pop_incomplete c wf h t false h0 hp hrd).2.2 rfl
 
 /-! ## non-vacuity -/
 
